@@ -19,7 +19,9 @@ impl Outcome {
 #[derive(Clone, Debug, Default)]
 pub struct Expect { pub vals: Vec<RV>, pub err: bool, pub any_ts: bool, pub any_text: bool, pub tol: f64,
     /// the operands lie outside the harness' value domain (saturated intervals): nothing can be said about this node
-    pub anything: bool }
+    pub anything: bool,
+    /// absolute tolerance for REAL results of numerically ill-conditioned formulas (variance by sums of squares)
+    pub abs_tol: f64 }
 
 impl Expect {
     pub fn val(v: RV) -> Expect { Expect { vals: vec![v], ..Default::default() } }
@@ -29,11 +31,12 @@ impl Expect {
     pub fn or(mut self, v: RV) -> Expect { self.vals.push(v); self }
     pub fn both_bools() -> Expect { Expect::vals(vec![RV::Bool(true), RV::Bool(false)]) }
     pub fn boolean(b: bool) -> Expect { Expect::val(RV::Bool(b)) }
-    pub fn union(mut self, other: Expect) -> Expect { self.vals.extend(other.vals); self.err |= other.err; self.any_ts |= other.any_ts; self.any_text |= other.any_text; self.tol = self.tol.max(other.tol); self }
+    pub fn union(mut self, other: Expect) -> Expect { self.vals.extend(other.vals); self.err |= other.err; self.any_ts |= other.any_ts; self.any_text |= other.any_text; self.tol = self.tol.max(other.tol); self.abs_tol = self.abs_tol.max(other.abs_tol); self.anything |= other.anything; self }
     pub fn admits(&self, o: &Outcome) -> bool {
         match o {
             _ if self.anything => true,
             Outcome::Err(_) => self.err,
+            Outcome::Val(RV::Real(x)) if self.abs_tol > 0.0 && self.vals.iter().any(|a| matches!(a, RV::Real(y) if (x - y).abs() <= self.abs_tol)) => true,
             Outcome::Val(v) => (self.any_ts && matches!(v, RV::Ts(_))) || (self.any_text && matches!(v, RV::Text(_))) || self.vals.iter().any(|a| a.same(v, self.tol)),
         }
     }
